@@ -1073,6 +1073,13 @@ def prefixscan_blelloch(func, preop, binop, x, axis=None, dtype=None, out=None):
     name = f"{func.__name__}-{tokenize(func, axis, preop, binop, x, dtype)}"
     base_key = (name,)
 
+    # The totals of the blocks must be accumulated in the result dtype, as the scan of
+    # each block is; ``dtype=`` below only declares the metadata of ``batches``.
+    try:
+        if "dtype" in inspect.signature(preop).parameters:
+            preop = partial(preop, dtype=dtype)
+    except (TypeError, ValueError):
+        pass
     # Right now, the metadata for batches is incorrect, but this should be okay
     batches = x.map_blocks(preop, axis=axis, keepdims=True, dtype=dtype)
     # We don't need the last index until the end
